@@ -39,13 +39,17 @@ type BCall struct {
 type base struct {
 	calls   []BCall
 	startOK bool
+	stopOK  bool
 	wantBg  *cptvframe.Frame
 	wantT   uint16
 	wantF   *cptvframe.Frame
 }
 
 func (b *base) StopRecording() error {
-	b.calls = append(b.calls, BCall{"stop", true, true})
+	b.calls = append(b.calls, BCall{"stop", b.stopOK, true})
+	if !b.stopOK {
+		return errors.New("injected stop failure")
+	}
 	return nil
 }
 func (b *base) StartRecording(bg *cptvframe.Frame, t uint16) error {
@@ -68,7 +72,8 @@ func (l *lst) WhenThrottled() { l.n++ }
 type Step struct {
 	A      string `json:"a"`
 	D      int    `json:"d"`  // ms
-	Ok     *bool  `json:"ok"` // base start result if it is reached
+	Ok     *bool  `json:"ok"`  // base start result if it is reached
+	Sok    *bool  `json:"sok"` // base stop result if it is reached
 	Motion bool   `json:"motion"`
 }
 type Cfg struct {
@@ -158,7 +163,7 @@ func runOne(out *vh.Out, si int, sc Script) {
 		}
 		minFrames := minLenS * cfg.Fps
 		c := &clk{now: time.Unix(100000, 0)}
-		b := &base{startOK: true}
+		b := &base{startOK: true, stopOK: true}
 		l := &lst{}
 		conf := &config.ThermalThrottler{Activate: true, BucketSize: time.Duration(cfg.BucketS) * time.Second,
 			MinRefill: time.Duration(cfg.K*minFrames) * time.Millisecond}
@@ -189,8 +194,10 @@ func runOne(out *vh.Out, si int, sc Script) {
 					n++
 					raw := vh.RawLepton(cam, uint32(60000+n*100), 0, func(y, x int) uint16 { return v })
 					b.startOK = st.Ok == nil || *st.Ok
+					b.stopOK = st.Sok == nil || *st.Sok
 					mp.Process(raw)
 				case "reset":
+					b.stopOK = st.Sok == nil || *st.Sok
 					mp.Reset(cam)
 				}
 			}
@@ -202,6 +209,7 @@ func runOne(out *vh.Out, si int, sc Script) {
 		upOpen := false
 		for _, st := range sc.Steps {
 			b.startOK = st.Ok == nil || *st.Ok
+			b.stopOK = st.Sok == nil || *st.Sok
 			switch st.A {
 			case "adv":
 				c.now = c.now.Add(time.Duration(st.D) * time.Millisecond)
